@@ -40,6 +40,8 @@ def cases(tier, seed):
     # the same enumeration with weak-referenceable values (numpy arrays): the cache keeps a second,
     # weak table for those, so look-ups take other paths
     yield {"kind": "bfs", "budget": "4KiB", "depth": 60, "nkeys": 3, "values": "ndarray"}
+    # ... and with both kinds mixed: a value that cannot be weakly referenced written over one that can
+    yield {"kind": "bfs", "budget": "4KiB", "depth": 60, "nkeys": 3, "values": "mixed"}
     if tier == "thorough":
         yield {"kind": "bfs", "budget": "4KiB", "depth": 60, "nkeys": 4}
     n = 150 if tier == "quick" else 6000
@@ -168,6 +170,8 @@ class CacheRunner:
         self.sizes = size_classes(self.cache.memory_cache_bytes)
         make = str_of_size if values == "str" else array_of_size
         self.values = {s: make(n) for s, n in self.sizes.items()}
+        if values == "mixed":
+            self.values = {s: (array_of_size if s in ("third", "exact") else str_of_size)(n) for s, n in self.sizes.items()}
         self.mon = LruMonitor()
         self.last_put = {}
         self.last_ref = {}  # weak-referenceable values the harness still holds: the cache may serve them via its weak references
